@@ -250,9 +250,6 @@ MatVecTo(Cols, v, DSto) ==
   TLCEval([Dp \in DSto |-> FoldSet(LAMBDA D, a : FAdd(a, FMul(Cols[D][Dp], v[D])), 0, DOMAIN v)])
 VSApplyTo(Cols, v, DSto) == TLCEval([n \in 1..Len(v) |-> MatVecTo(Cols, v[n], DSto)])
 
-Fact(n) == CASE n = 0 -> 1 [] n = 1 -> 1 [] n = 2 -> 2 [] n = 3 -> 6 [] OTHER -> 24
-SqrtImage(n) == CASE n = 1 -> 1 [] n = 2 -> Sqrt2 [] n = 4 -> 2 [] n = 6 -> FMul(Sqrt2, Sqrt3)
-                  [] n = 12 -> FMul(2, Sqrt3) [] n = 36 -> 6 [] OTHER -> Assert(FALSE, <<"sqrt image", n>>)
 ClassFactor(variant, c) ==
   LET cl == Classes(variant)[c] IN SqrtImage(Fact(cl[1]) * Fact(cl[2]))
 
